@@ -608,6 +608,13 @@ func (c *bufioConn) SetWriteDeadline(t time.Time) error {
 // Uses bufio.Reader to support peeking at data without consuming it,
 // allowing proper fallback to normal TCP handling if this isn't DNS traffic.
 func (c *ControlPlane) handleTCPDnsFastPath(ctx context.Context, lConn net.Conn, bufReader *bufio.Reader, src, dst netip.AddrPort, routingResult *bpfRoutingResult) (handled bool, err error) {
+	defer func() {
+		if !handled {
+			// The detection deadline must not outlive detection: the relay that
+			// takes over would otherwise be cut when it expires.
+			_ = lConn.SetReadDeadline(time.Time{})
+		}
+	}()
 	// Try to read the first DNS query to verify this is actually DNS traffic
 	msg, frameLen, err := readDnsMsgFromBufio(bufReader, TCPDNSFirstReadTimeout, lConn)
 	if err != nil {
